@@ -119,7 +119,7 @@ func (g *gen) srcString(pkg, key string) {
 }
 
 func genShapes(g *gen) {
-	for _, k := range []string{"PreciseVectorFromVector", "NewPreciseVector", "PreciseVector.Cross", "PreciseVector.Vector"} {
+	for _, k := range []string{"PreciseVectorFromVector", "NewPreciseVector", "PreciseVector.Cross", "PreciseVector.Vector", "PreciseVector.IsZero"} {
 		g.srcString("r3", k)
 	}
 }
